@@ -707,6 +707,13 @@ func init() {
 				cases = append(cases, e18RestCase(p, ns))
 			}
 		}
+		// the eight generated joins (and the double join) as instances of the join
+		// template: E10's scenarios, reported under C20 as well
+		for _, k := range e10Joins {
+			for i := 0; i < tierPick(tier, 4, 40); i++ {
+				cases = append(cases, e10As(e10Case(k, seed, i), "C20", nil))
+			}
+		}
 		return cases
 	})
 }
